@@ -18,8 +18,8 @@ open DoitModel.Run
     * the main side keeps its number of action instances; action `i` has the worker's `out` / `err` whenever the worker
       had an action `i`, and keeps its own otherwise. -/
 theorem C08_data_intact (m : MainSide) (w : WorkerSide) :
-    (∀ a, a.unsafe = false → (processResultData m (workerResult w)).task a = w.task a) ∧
-    (∀ a, a.unsafe = true → (processResultData m (workerResult w)).task a = m.task a) ∧
+    (∀ a, a.notShipped = false → (processResultData m (workerResult w)).task a = w.task a) ∧
+    (∀ a, a.notShipped = true → (processResultData m (workerResult w)).task a = m.task a) ∧
     (processResultData m (workerResult w)).baseFail = w.failure ∧
     (processResultData m (workerResult w)).acts.length = m.acts.length ∧
     (∀ (i : Nat) (a : ActOut), m.acts[i]? = some a → (processResultData m (workerResult w)).acts[i]? =
@@ -42,17 +42,17 @@ theorem C08_data_intact_same_actions (m : MainSide) (w : WorkerSide) (h : m.acts
     (processResultData m (workerResult w)).acts = w.acts ∧
     (processResultData m (workerResult w)).baseFail = w.failure := by
   refine ⟨?_, ?_, ?_, ?_, rfl⟩
-  · simp [processResultData, workerResult, updateFromPickle, pickleSafe, Attr.unsafe]
-  · simp [processResultData, workerResult, updateFromPickle, pickleSafe, Attr.unsafe]
-  · simp [processResultData, workerResult, updateFromPickle, pickleSafe, Attr.unsafe]
+  · simp [processResultData, workerResult, updateFromPickle, pickleSafe, Attr.notShipped]
+  · simp [processResultData, workerResult, updateFromPickle, pickleSafe, Attr.notShipped]
+  · simp [processResultData, workerResult, updateFromPickle, pickleSafe, Attr.notShipped]
   · simp only [processResultData, workerResult]; exact zip_all m.acts w.acts h
 
 /-- the other direction (`JobTaskPickle` received by a worker process): the worker's copy takes every shipped
     attribute from the main side (run-time state such as `options`, `values` of getargs sources) and keeps its own
     actions -/
 theorem C08_job_pickle_intact (workerCopy mainTask : TaskRec) :
-    (∀ a, a.unsafe = false → workerReceivesPickle workerCopy mainTask a = mainTask a) ∧
-    (∀ a, a.unsafe = true → workerReceivesPickle workerCopy mainTask a = workerCopy a) := by
+    (∀ a, a.notShipped = false → workerReceivesPickle workerCopy mainTask a = mainTask a) ∧
+    (∀ a, a.notShipped = true → workerReceivesPickle workerCopy mainTask a = workerCopy a) := by
   constructor <;> intro a ha <;> simp [workerReceivesPickle, updateFromPickle, pickleSafe, ha]
 
 /-- round trip: a worker that changes nothing hands the main task back unchanged (nothing is lost by shipping a task
@@ -64,7 +64,7 @@ theorem C08_roundtrip_identity (m : MainSide) (workerCopy : TaskRec) :
       { task := workerReceivesPickle workerCopy m.task, acts := m.acts, failure := none })).acts = m.acts := by
   constructor
   · funext a
-    cases h : a.unsafe <;>
+    cases h : a.notShipped <;>
       simp [processResultData, workerResult, workerReceivesPickle, updateFromPickle, pickleSafe, h]
   · simp only [processResultData, workerResult]; exact zip_all m.acts m.acts rfl
 
